@@ -24,6 +24,7 @@ def run(ctx):
     check_dispatch(ctx, prog)
     check_stop(ctx, prog)
     check_active(ctx, prog)
+    check_scan_and_listeners(ctx, prog)
     check_join(ctx, prog, 'C14')
     check_close(ctx, prog)
     fixture = os.path.join(ir.VERIF, 'fixtures', 'selfdelete_bad.cpp')
@@ -190,6 +191,48 @@ def check_active(ctx, prog):
             ctx.undecided('C14.active', f['pq'], role, fwhere(f, e.get('l')), 'the list filled by Sockets::waitInput was not identified')
         else:
             ctx.check(ok, 'C14.active', f['pq'], role, fwhere(f, e.get('l')), why, 'accept() can be called on an idle listening socket: %s; the blocking accept stalls the loop (other endpoints unserved, stop(true) never returns)' % why)
+
+
+def check_scan_and_listeners(ctx, prog):
+    """C14.scan: Sockets::waitInput() examines every socket of the set when it collects the readable ones (the loop that fills the
+    `changed` list runs set.length() times whatever select() returned).  C14.listeners: while the accept loop may run, only the
+    loop itself touches the listening sockets: stop() does not close or modify `_sockets`."""
+    import bounded, bytesets
+    wi = fn1(prog, 'asl::Sockets::waitInput')
+    ctx.analysed(wi)
+    role = 'waitInput:every socket of the set is examined'
+    fill = [lp for lp in ir.walk_stmts(wi['body']) if lp.get('k') in ('for', 'while') and any(e.get('k') == 'call' and e.get('op') == '<<' and strip_lv(e.get('obj') or {}).get('k') == 'mem' for e in ir.stmt_exprs(lp['body']))]
+    if len(fill) != 1:
+        ctx.undecided('C14.scan', wi['pq'], role, fwhere(wi), 'loop that collects the readable sockets not found')
+    else:
+        cl = q.counted_loop(wi, fill[0])
+        lens = set(pe(w) for w in fn_exprs(wi) if w.get('k') == 'call' and (w.get('pq') or '').endswith('::length') and strip_lv(w.get('obj') or {}).get('f') == 'set')
+        if cl is None or not isinstance(cl['step'], int) or len(lens) != 1:
+            ctx.undecided('C14.scan', wi['pq'], role, fwhere(wi, fill[0]['l']), 'collecting loop is not a recognised counting loop over the set')
+        else:
+            lt = list(lens)[0]
+            bad = None
+            try:
+                by_id, _bt = bounded.atoms_of(prog, wi, cl['cond'], allow_assigned=(cl['var'],))
+                others = [i for i in by_id if i != cl['var']]
+                for L in range(1, 5):
+                    for r in range(1, L + 1):
+                        init = bounded.Bound(prog, wi, dict((o, r) for o in others), {lt: L}).ev(cl['init'])
+                        trips = 0
+                        while trips <= 16 and bounded.Bound(prog, wi, dict([(cl['var'], init + trips * cl['step'])] + [(o, r) for o in others]), {lt: L}).ev(cl['cond']):
+                            trips += 1
+                        ctx.evaluations += 1
+                        if trips != L and bad is None:
+                            bad = (L, r, trips)
+                ctx.check(bad is None, 'C14.scan', wi['pq'], role, fwhere(wi, fill[0]['l']), 'the collecting loop runs set.length() times for every select() result',
+                          'with %d sockets in the set and select() reporting %d ready, the collecting loop examines only %d socket(s): a connection pending on a later-bound endpoint is never accepted (and the loop spins)' % (bad if bad else (0, 0, 0)))
+            except bytesets.Undecidable as u:
+                ctx.undecided('C14.scan', wi['pq'], role, fwhere(wi, fill[0]['l']), 'loop bounds not evaluable: %s' % u)
+    s = fn1(prog, 'asl::SocketServer::stop')
+    touching = [e for e in fn_exprs(s) if e.get('k') == 'call' and e.get('obj') is not None and any(w.get('k') == 'mem' and w.get('f') == '_sockets' for w in walk_expr(e['obj'])) and 'const' not in (e.get('sig') or '').split(')')[-1]]
+    ctx.evaluations += 1
+    ctx.check(not touching, 'C14.listeners', s['pq'], 'stop:the listening sockets are left to the accept loop', fwhere(s, touching[0]['l'] if touching else None), 'stop() only sets the request and waits',
+              'stop() calls `%s` while the accept loop may still be walking the sockets of its last waitInput(): accept() then runs on a closed listener and serve() is handed an invalid socket (the queued connection is lost)' % (pe(touching[0]) if touching else ''))
 
 
 def check_stop(ctx, prog):
